@@ -119,7 +119,7 @@ def run(ctx):
                 t = body.term(c[0].bb) if c else None
                 if not t:
                     continue
-                op = c[0].what.rsplit("::", 1)[1]
+                op = c[0].what.rsplit("::", 1)[-1]
                 one = lambda o: bool(o) and all(x.endswith("NativeProof>::amount") for x in o)
                 lhs, rhs = origin_names(body, t["args"][0]), origin_names(body, t["args"][1])
                 # proof.amount() >= N  |  N <= proof.amount()  (and the negated forms on their false edge)
